@@ -310,7 +310,39 @@ class PerSignature:
 
 
 def client_flag_cases():
-    return [['client-flags', a, r, d] for a in (0, 1) for r in (0, 1) for d in (0, 1)]
+    return ([['client-flags', a, r, d] for a in (0, 1) for r in (0, 1) for d in (0, 1)] +
+            [['client-flags', 'result', a, r, d, e, code] for a in (0, 1) for r in (0, 1) for d in (0, 1) for e in (0, 1)
+             for code in (1, 2, 3, 4)])
+
+
+def evaluate_client_result(c, res):
+    """what requestBusName makes of the bus's reply code: with errbackUnlessAcquired (the default) the Deferred succeeds exactly
+    when the caller now OWNS the name (codes 1 owner, 4 already owner) and fails with FailedToAcquireName carrying the code
+    otherwise (2 queued, 3 refused); without it the code is handed through"""
+    from twisted.internet import defer
+    from txdbus import client as _cl
+    from txdbus import error as _er
+    _, _, a, r, d, e, code = c
+
+    class Stub:
+        def callRemote(self, *aa, **kw):
+            self.d = defer.Deferred()
+            return self.d
+    st = Stub()
+    got = []
+    try:
+        dd = _cl.DBusClientConnection.requestBusName(st, 'a.b', allowReplacement=bool(a), replaceExisting=bool(r), doNotQueue=bool(d),
+                                                     errbackUnlessAcquired=bool(e))
+        dd.addCallbacks(lambda v: got.append(['ok', v]),
+                        lambda f: got.append(['err', f.check(_er.FailedToAcquireName) is not None, getattr(f.value, 'returnCode', None)]))
+        st.d.callback(code)
+    except Exception as ex:
+        got = [['exc', type(ex).__name__]]
+    res.count(c, nontrivial=True)
+    want = [['ok', code]] if (not e or code in (1, 4)) else [['err', True, code]]
+    if got != want:
+        res.violate(c, 'requestBusName(doNotQueue=%s, errbackUnlessAcquired=%s) answered with reply code %d completes as %r; the reply '
+                    'code means %r' % (bool(d), bool(e), code, got, want), 'client:reply-code-mapping')
 
 
 def evaluate_client_flags(cases, res):
@@ -324,6 +356,9 @@ def evaluate_client_flags(cases, res):
             self.a, self.kw = a, kw
             return defer.Deferred()
     for c in cases:
+        if c[1] == 'result':
+            evaluate_client_result(c, res)
+            continue
         _, a, r, d = c
         st = Stub()
         try:
